@@ -141,7 +141,19 @@ impl<'a> D<'a> {
 
     pub fn process(&mut self, ctx: u64, p: &[u8]) -> Value {
         let poison = self.poison();
-        self.ex(json!({"op":"process","ctx":ctx,"p":jb(p),"rbuf_len":64,"poison":poison}))
+        // the capacity of the caller's response buffer is a free parameter of C11 / C12 / C15 (any buffer the
+        // response fits into): mostly 64, otherwise sizes around and beyond the SMBus frame limit
+        let cap = match poison % 16 {
+            0 => 65,
+            1 => 128,
+            2 => 259,
+            3 => 260,
+            4 => 300,
+            5 => 512,
+            6 => 1024,
+            _ => 64,
+        };
+        self.ex(json!({"op":"process","ctx":ctx,"p":jb(p),"rbuf_len":cap,"poison":poison}))
     }
 
     pub fn process_n(&mut self, ctx: u64, p: &[u8], rbuf_len: usize) -> Value {
